@@ -19,6 +19,11 @@ import (
 	"verif/harness/g3lib"
 )
 
+// caseTimeout is the watchdog of one case (normal latency: microseconds to milliseconds). A fired
+// watchdog is inconclusive and cuts the run short: an endless loop inside RemoveOverlappingRanges
+// also grows its work list without bound.
+const caseTimeout = 20 * time.Second
+
 const intersectRangesSig = "intersectranges:returns-first-operand-not-the-intersection"
 
 func main() {
@@ -54,10 +59,11 @@ func main() {
 	})
 	// one-column range sets of <= 2 ranges exhaustively (<= 3 in thorough): RemoveOverlappingRanges + SimplifyRangeColumn
 	var smallSets int64
-	r.Parallel("smallsets", len(doms)*len(exprs), func(i int) {
-		d := doms[i/len(exprs)]
-		a := exprs[i%len(exprs)]
-		g3lib.Guard(r, "smallsets", i, core.StmtTimeout, func() {
+	ne := len(exprs)
+	r.Parallel("smallsets", len(doms)*ne*ne, func(i int) {
+		d := doms[i/(ne*ne)]
+		a, b := exprs[(i/ne)%ne], exprs[i%ne]
+		g3lib.Guard(r, "smallsets", i, caseTimeout, func() {
 			rec := g3lib.NewRec(r)
 			defer rec.Flush()
 			one := func(ws ...wexpr) {
@@ -71,13 +77,13 @@ func main() {
 				simplify(rec, ctx, d, ws)
 				atomic.AddInt64(&smallSets, 1)
 			}
-			one(a)
-			for _, b := range exprs {
-				one(a, b)
-				if !r.Quick() {
-					for _, c := range exprs {
-						one(a, b, c)
-					}
+			if i%ne == 0 {
+				one(a)
+			}
+			one(a, b)
+			if !r.Quick() {
+				for _, c := range exprs {
+					one(a, b, c)
 				}
 			}
 		})
@@ -95,7 +101,7 @@ func main() {
 		}
 		nr := 1 + rnd.Intn(8)
 		s := genSet(rnd, ncols, nr)
-		ok := g3lib.Guard(r, "sets", i, core.StmtTimeout, func() {
+		ok := g3lib.Guard(r, "sets", i, caseTimeout, func() {
 			r := g3lib.NewRec(r)
 			defer r.Flush()
 			checkROL(r, ctx, s, i < 3)
@@ -142,7 +148,7 @@ func main() {
 		ncols := 1 + rnd.Intn(3)
 		nops := 10 + rnd.Intn(40)
 		disjoint := i%5 != 4
-		if g3lib.Guard(r, "tree", i, core.StmtTimeout, func() {
+		if g3lib.Guard(r, "tree", i, caseTimeout, func() {
 			rec := g3lib.NewRec(r)
 			defer rec.Flush()
 			treeHistory(rec, ctx, rnd, ncols, nops, disjoint)
@@ -152,7 +158,7 @@ func main() {
 	})
 	r.Count("tree.histories-completed", hdone)
 
-	pinned(r, ctx)
+	g3lib.Guard(r, "pinned", 0, caseTimeout, func() { pinned(r, ctx) })
 
 	// floors: the mechanisms named in the anchors were exercised
 	r.Floor(done*10 >= int64(nsets)*9, fmt.Sprintf("only %d of %d range sets completed", done, nsets))
@@ -162,7 +168,6 @@ func main() {
 	r.Floor(r.Counter("removeoverlap.split") > 0, "RemoveOverlap never cut a pair into pieces")
 	r.Floor(r.Counter("tree.disjoint.depth>=4") > 0, "interval tree never reached depth 4 (no rebalancing exercised)")
 	r.Floor(r.Counter("tree.disjoint.remove") > 0 && r.Counter("tree.disjoint.findconnections-nonempty") > 0, "interval tree removes / successful FindConnections not exercised")
-	_ = time.Second
 	r.Finish()
 }
 
